@@ -206,7 +206,15 @@ std::string run_exec_cnt_rt(const Cmd& c){
     std::vector<Counters> copies;
     {
         std::unique_ptr<Algo> algo(new Algo(conf, stop));
-        algo->execute(tree);
+        if(seed & 1){
+            // staged run of the same executor object with a SHRINKING team: far field with T workers, near field with T/2 - the merge
+            // over all kernel copies must still report everything
+            algo->execute(tree, TbfAlgorithmUtils::TbfFarField);
+            mock_rt().reset(MockRuntime::Policy(policy), std::max(1, int(T) / 2), (unsigned long)seed + 17);
+            mock_rt().on_task_start = nullptr; mock_rt().on_spawn = nullptr;
+            algo->execute(tree, TbfAlgorithmUtils::TbfNearField);
+        }
+        else algo->execute(tree);
         algo->applyToAllKernels([&](const auto& k){ copies.push_back(k.getReduceData()); });
     }
     auto cs = [](const Counters& k){ return std::to_string(k.P2M) + " " + std::to_string(k.M2M) + " " + std::to_string(k.M2L) + " " + std::to_string(k.L2L)
